@@ -24,12 +24,15 @@ for p in C01 C02 C03 C04 C05 C06 C07 C08 C09 C10 C11 C12 C13 C14 C15 C16 C17 C18
     rules=$(python3 -c "
 import json,sys
 obs=json.load(open('$OUT/$NAME.$p.json'))
-print(','.join(sorted(set(o['rule']+('?' if o['verdict']=='UNDECIDED' else '') for o in obs if o['verdict']!='ok'))))")
+kf=json.load(open('$V/known_findings.json'))
+known={(f['property'],f['rule'],f['key']) for f in kf['findings']}
+print(','.join(sorted(set(o['rule']+('?' if o['verdict']=='UNDECIDED' else '') for o in obs if o['verdict']!='ok' and ('$p',o['rule'],o['key']) not in known))))")
     det="$det $p[$rules]"
   fi
   rm -f "$OUT/$NAME.$p.json"
 done
 echo "detected:$det" >> "$R"
+[ -n "${DETECT_ONLY:-}" ] && exit 0
 # demo with the change
 mkdir -p /tmp/tgb_$NAME
 demos=$(ls "$SD"/*_test.go 2>/dev/null)
